@@ -231,11 +231,14 @@ class YncaCommandHandler(socketserver.StreamRequestHandler):
 
         # SYS:INPNAME returns all inputnames
         if subunit == "SYS" and function == "INPNAME":
+            response_sent = False
             sys_values = self.store._store.get("SYS", {})
             for key in sys_values.keys():
                 if key.startswith("INPNAME") and key != "INPNAME":
-                    self._send_stored_value_no_error(subunit, key)
-
+                    if self._send_stored_value_no_error(subunit, key) is not None:
+                        response_sent = True
+            if not response_sent:
+                self._send_ynca_error(UNDEFINED)
             return
         # SCENENAME returns all scenenames
         elif function == "SCENENAME":
@@ -247,8 +250,8 @@ class YncaCommandHandler(socketserver.StreamRequestHandler):
                     and key.endswith("NAME")
                     and key != "SCENENAME"
                 ):
-                    self._send_stored_value_no_error(subunit, key)
-                    response_sent = True
+                    if self._send_stored_value_no_error(subunit, key) is not None:
+                        response_sent = True
             if not response_sent:
                 self._send_ynca_error(UNDEFINED)
             return
